@@ -6,8 +6,10 @@ TinySlices == <<
   Sl(<<"api", "web">>, <<"large", "small">>, <<"east", "west">>,
      [s \in {"api", "web"} |-> IF s = "web" THEN NoneAll ELSE {{"command", "args", "env"}}],
      [s \in {"api", "web"} |-> IF s = "web" THEN {"two", "none"} ELSE {"local", "udp"}],
-     {2}, [c \in {"large", "small"} |-> IF c = "large" THEN {QLarge} ELSE {QSmall}]) >>
+     {2}, [c \in {"large", "small"} |-> IF c = "large" THEN "QLarge" ELSE "QSmall"]) >>
 
+
+TierQuants(tag) == BaseQuants(tag)
 
 ASSUME ExportDocs(Slices)
 =============================================================================
